@@ -100,6 +100,7 @@ class C12(HistoryProperty):
 
     def gen_case(self, rng, tier):
         cfg = gen.swarm_cfg(rng, off=("shape_change",), on=("dsclass", "fapp"))
+        cfg["env_refs"] = rng.random() < 0.4  # Template texts referring to the process environment
         cfg["posonly_params"] = rng.random() < 0.4  # dataset functions with positional-only parameters
         cfg["stateful_callables"] = rng.random() < 0.5  # callback OBJECTS that a failed call leaves dirty
         cfg["user_evaluatables"] = rng.random() < 0.4  # user-defined Evaluatable leaves (also with methods inherited from a plain mixin)
